@@ -53,11 +53,16 @@ def run(kinds, maxtasks, handshake):
             return 1
         return f
 
+    clock = [1000.0]
+    arrived = {}
+
     def wait_for_job():
         events.append(('take',))
+        clock[0] += 7.0                   # the worker was idle for a while before something arrived
         if not tasks:
             raise SystemExit(0)           # the queue is closed: the worker is told to stop
         job, kind = tasks.pop(0)
+        arrived[job] = clock[0]
         return (pool.TASK, (job, None, task_fn(job, kind), (), {}))
 
     def wait_for_syn():
@@ -73,6 +78,8 @@ def run(kinds, maxtasks, handshake):
             job = body[0]
             if tag == pool.ACK:
                 events.append(('ack', job))
+                if body[2] < arrived.get(job, 0) or body[3] != 4242:
+                    events.append(('bad_ack', job, body[2], arrived.get(job), body[3]))
                 return
             if job not in first_ready:
                 first_ready.add(job)
@@ -97,7 +104,7 @@ def run(kinds, maxtasks, handshake):
     w.wait_for_job, w.wait_for_syn = wait_for_job, (wait_for_syn if handshake else None)
     w._ensure_messages_consumed = lambda completed: ensured.append(completed)
     try:
-        rc = w.workloop(pid=4242)
+        rc = w.workloop(pid=4242, now=lambda: clock[0])
         outcome = ('return', rc)
     except BaseException as e:       # noqa
         outcome = ('raise', type(e).__name__)
@@ -132,6 +139,8 @@ def judge(kinds, maxtasks, handshake, events, outcome, ensured):
         if job in ran and events.index(('ack', job)) > events.index(('run', job)):
             bad.append('job %d was run before it was acknowledged' % job)
     for e in events:
+        if e[0] == 'bad_ack':
+            bad.append('the ACK of job %d carries acceptance time %r and pid %r; the job reached the worker at %r (pid 4242)' % e[1:])
         if e[0] == 'not_an_encoding_error':
             bad.append('job %d: the result could not be serialised, but what was sent instead is not an encoding-error failure' % e[1])
     if outcome[0] == 'raise' and outcome[1] != 'SystemExit':
